@@ -64,6 +64,9 @@ type caseSpec struct {
 	// Nest: number of authz.MsgExec envelopes around the message (variant "authz":
 	// at least one; variant "wasm": the contract dispatches the envelope).
 	Nest int `json:"nest,omitempty"`
+	// Later: delivered one day (14400 blocks) after the block time at which the
+	// prepared world was built - records that carry a time stamp only differ then.
+	Later bool `json:"later,omitempty"`
 }
 
 func (c caseSpec) with(path, actor string) caseSpec {
@@ -94,6 +97,9 @@ func (c caseSpec) String() string {
 	}
 	if c.Nest > 0 {
 		sb.WriteString(fmt.Sprintf(",msgexec*%d", c.Nest))
+	}
+	if c.Later {
+		sb.WriteString(",t0+1d")
 	}
 	if c.SigVar != "" {
 		sb.WriteString(",sig=" + c.SigVar)
@@ -189,7 +195,7 @@ func run(r *report.Run, replayFile string, dump bool) {
 	e.stores = e.storeKeys()
 	e.principals = []*principal{
 		mkPrincipal(e.B, []byte(sdk.ConsAddress(e.w.Vals[0].Cons.PubKey().Address()))),
-		mkPrincipal(e.U), mkPrincipal(e.G), mkPrincipal(e.L), mkPrincipal(e.M), mkPrincipal(e.A), mkPrincipal(e.C), mkPrincipal(e.I),
+		mkPrincipal(e.U), mkPrincipal(e.G), mkPrincipal(e.L), mkPrincipal(e.M), mkPrincipal(e.R), mkPrincipal(e.A), mkPrincipal(e.C), mkPrincipal(e.I),
 		mkPrincipal(e.V, []byte(sdk.ConsAddress(e.w.Vals[1].Cons.PubKey().Address()))),
 	}
 	c := &checker{e: e, r: r, tmpls: e.templates(), fields: map[string][]idField{}, before: map[string]projection{},
@@ -198,7 +204,7 @@ func run(r *report.Run, replayFile string, dump bool) {
 		c.dump()
 		return
 	}
-	r.Rule = "for every palomachain.paloma.* sdk.Msg type in the interface registry: a template valid in the prepared world (3 validators, active chain, B's keep-alive / chain account / relayer fee / bridge vote / batch estimate+confirm / message signature+estimate+evidence+delivery report, U's pooled transfer / batches / job / denoms / user contract, M's pending licence, governance settings incl. a compass deployment in flight); every assignment of {A,B,U,G,L} to every identity-bearing leaf (string/bytes leaf equal to an acc-bech32 / valoper-bech32 / raw / eth encoding of an actor) and to metadata.creator, signers=[attacker], really signed by the attacker (A, a plain account) and delivered through ante + router; MsgConfirmBatch additionally with {B's valid signature, attacker-key signature, B's signature over another batch}; everything repeated with a fee grant B->A; the product again with the forged message as SECOND message of a tx whose first message is a harmless denom creation by the attacker (third position and forged-first control: one case per actor with all leaves set to it; full products in the thorough tier); the product again with a second attacker V that is itself a bonded validator with registered chain accounts (w.Vals[1]: signer, creator candidate, own external-chain key and valid signatures; signature-carrying messages MsgConfirmBatch / MsgAddMessagesSignatures with {B's, attacker's own} signature); second pass 'resource takeover': for every type the attacker's own valid message with each scalar leaf set to the victim's resource names and spelling variants; nested dispatch: the full product with the forged message inside authz.MsgExec{grantee: A} (no grant exists; one extra case per type with two envelopes), and the product (one case per actor in quick, full in thorough) dispatched as CosmosMsg::Any by a contract C through the application's own x/wasm messenger, also wrapped in authz.MsgExec{grantee: C}; positive control: C acting for itself must be accepted; the same product sent as an interchain-accounts EXECUTE_TX packet for an interchain account I through ICAHostKeeper.OnRecvPacket (positive control: I acting for itself). Oracle: projection of all records attributed to B,U,G,L,M before/after"
+	r.Rule = "for every palomachain.paloma.* sdk.Msg type in the interface registry: a template valid in the prepared world (3 validators, active chain, B's keep-alive / chain account / relayer fee / bridge vote / batch estimate+confirm / message signature+estimate+evidence+delivery report, U's pooled transfer / batches / job / denoms / user contract, M's pending licence, R's light-node client registration, governance settings incl. a compass deployment in flight); every assignment of {A,B,U,G,L} to every identity-bearing leaf (string/bytes leaf equal to an acc-bech32 / valoper-bech32 / raw / eth encoding of an actor) and to metadata.creator, signers=[attacker], really signed by the attacker (A, a plain account) and delivered through ante + router; MsgConfirmBatch additionally with {B's valid signature, attacker-key signature, B's signature over another batch}; everything repeated with a fee grant B->A; the product again with the forged message as SECOND message of a tx whose first message is a harmless denom creation by the attacker (third position and forged-first control: one case per actor with all leaves set to it; full products in the thorough tier); the product again with a second attacker V that is itself a bonded validator with registered chain accounts (w.Vals[1]: signer, creator candidate, own external-chain key and valid signatures; signature-carrying messages MsgConfirmBatch / MsgAddMessagesSignatures with {B's, attacker's own} signature); every routable message type as the attacker's own valid message with no victim-naming field at all, at t0 and at t0+1d: no victim-owned record may change (a broadcast / maintenance message must be idempotent on the records of others; victims include R, a registered light-node client holding the feegranter's grant); second pass 'resource takeover': for every type the attacker's own valid message with each scalar leaf set to the victim's resource names and spelling variants; nested dispatch: the full product with the forged message inside authz.MsgExec{grantee: A} (no grant exists; one extra case per type with two envelopes), and the product (one case per actor in quick, full in thorough) dispatched as CosmosMsg::Any by a contract C through the application's own x/wasm messenger, also wrapped in authz.MsgExec{grantee: C}; positive control: C acting for itself must be accepted; the same product sent as an interchain-accounts EXECUTE_TX packet for an interchain account I through ICAHostKeeper.OnRecvPacket (positive control: I acting for itself). Oracle: projection of all records attributed to B,U,G,L,M before/after"
 	r.Assumptions = []string{
 		"attribution: a record belongs to a principal when its key or value contains the principal's account bytes, account bech32, operator bech32 or consensus address (B); an external-chain address inside a record is content (destination, token contract, registered account) and does not attribute it; governance owns the params stores and an explicit list of setting families (chain infos, compass contracts and deployments, bridge tax / limits, sale contracts, observed-nonce cursor, pigeon requirements, light-node feegranter/funders)",
 		"a denom string factory/<address>/<sub> mentions its creator; outside the denom-owned families (tokenfactory records, bank denom metadata and supply, skyway denom<->erc20 mappings) such a mention does not attribute a record (e.g. A's own pooled transfer of U's token)",
@@ -208,7 +214,8 @@ func run(r *report.Run, replayFile string, dump bool) {
 		"out of scope: staking / slashing / distribution stores and valset jail reasons (jailing is C13); MsgSubmitBadSignatureEvidence is enumerated but its jailing effect is not judged here",
 		"with a fee grant B->A every transaction signed by A is authorised by B in the property's wording ('an address holding a fee grant from it'): B's records are then free, U/G/L/M stay protected; additionally the template with creator=B must not be refused by the ante chain",
 		"MsgConfirmBatch carrying B's own external-chain signature over the exact checkpoint of that batch may add B's confirmation for that batch (property text); any other signature may not",
-		"MsgSetLegacyLightNodeClients is a parameterless migration trigger; the prepared world has no light-node feegranter so it is a no-op here",
+		"MsgSetLegacyLightNodeClients is a parameterless maintenance trigger anybody may send: importing fee-grantees of the light-node feegranter that are neither registered nor licensed is its purpose and the prepared world contains no such grantee; the grantees present (R registered, M licensed in the takeover world) must not be touched by it",
+		"time: the prepared world is built at block time t0 (R registered at t0); plans marked t0+1d deliver at t0 + 1 day / 14400 blocks so that records carrying a time stamp differ when rewritten",
 		"message types registered as sdk.Msg without a router handler cannot be delivered (baseapp refuses them) and are listed as unroutable",
 		"multi-message transactions: the harmless companion messages are tokenfactory MsgCreateDenom in the attacker's own namespace (they only create records keyed by the attacker); a violation that needs the companion (the forged message alone is refused) is keyed multimsg:*, otherwise the single-message signature is reported",
 		"validator attacker V: its own records (keyed by V, or parts of split values carrying V's operator address) are its own; violations found with V carry the suffix :by-validator",
@@ -221,7 +228,7 @@ func run(r *report.Run, replayFile string, dump bool) {
 	for s, why := range excludedStores {
 		r.Assumptions = append(r.Assumptions, "store "+s+" not projected: "+why)
 	}
-	sort.Strings(r.Assumptions[17:])
+	sort.Strings(r.Assumptions[18:])
 
 	if replayFile != "" {
 		c.replay(replayFile)
@@ -356,6 +363,9 @@ type outcome struct {
 
 func (c *checker) deliver(cs caseSpec) outcome {
 	ctx, before := c.prepared(cs.Type, cs.Variant)
+	if cs.Later {
+		ctx = world.Advance(ctx, 14400, 24*time.Hour)
+	}
 	msg := c.build(cs)
 	var res world.TxResult
 	if cs.Variant == "wasm" {
@@ -581,7 +591,7 @@ func (c *checker) judge(before, after projection, free map[string]bool, allow fu
 		}
 		kinds[op+" "+kind] = true
 		attributed := false
-		for _, v := range []string{"B", "U", "G", "L", "M"} {
+		for _, v := range []string{"B", "U", "G", "L", "M", "R"} {
 			var ch *change
 			switch {
 			case rb != nil && ob[v]:
@@ -811,7 +821,7 @@ func (c *checker) countOutcome(cs caseSpec, o outcome) {
 	}
 	key := ""
 	if o.Res.OK() || len(o.Changed) > 0 {
-		key = cs.Type + "|" + cs.Variant + "|" + cs.Attacker + "|" + cs.Pos + "|" + errClass(o.Res) + "|" + strings.Join(o.Changed, ",")
+		key = cs.Type + "|" + cs.Variant + "|" + cs.Attacker + "|" + cs.Pos + fmt.Sprint(cs.Later) + "|" + errClass(o.Res) + "|" + strings.Join(o.Changed, ",")
 	} else {
 		key = cs.Type + "|" + cs.Attacker + "|" + cs.Pos + "|" + errClass(o.Res)
 	}
@@ -932,6 +942,7 @@ func (c *checker) enumerate() {
 		attacker, variant, pos string
 		product                string
 		nest                   int
+		later                  bool
 	}
 	th := r.Thorough()
 	red := "diag"
@@ -939,24 +950,26 @@ func (c *checker) enumerate() {
 		red = "full"
 	}
 	plans := []plan{
-		{"", "plain", "", "full", 0},
-		{"", "grant", "", "full", 0},
-		{"", "plain", "second", "full", 0},
-		{"", "plain", "third", red, 0},
-		{"", "plain", "first", red, 0},
-		{"V", "plain", "", "full", 0},
-		{"V", "plain", "second", red, 0},
-		{"", "authz", "", "full", 1},
-		{"", "authz", "", "orig", 2},
-		{"", "wasm", "", red, 0},
-		{"", "wasm", "", "diag", 1},
-		{"", "ica", "", red, 0},
-		{"", "ica", "", "diag", 1},
+		{"", "plain", "", "full", 0, false},
+		{"", "grant", "", "full", 0, false},
+		{"", "plain", "second", "full", 0, false},
+		{"", "plain", "third", red, 0, false},
+		{"", "plain", "first", red, 0, false},
+		{"V", "plain", "", "full", 0, false},
+		{"V", "plain", "second", red, 0, false},
+		{"", "authz", "", "full", 1, false},
+		{"", "authz", "", "orig", 2, false},
+		{"", "wasm", "", red, 0, false},
+		{"", "wasm", "", "diag", 1, false},
+		{"", "ica", "", red, 0, false},
+		{"", "ica", "", "diag", 1, false},
+		{"", "plain", "", "diag", 0, true},
+		{"V", "plain", "", "diag", 0, true},
 	}
 	if th {
 		plans = append(plans,
-			plan{"", "grant", "second", "full", 0},
-			plan{"V", "plain", "third", "diag", 0},
+			plan{"", "grant", "second", "full", 0, false},
+			plan{"V", "plain", "third", "diag", 0, false},
 		)
 	}
 	deadline := r.Deadline(150*time.Second, 25*time.Minute)
@@ -972,7 +985,7 @@ func (c *checker) enumerate() {
 				continue
 			}
 			for _, sv := range c.e.variantsOf(url, pl.attacker) {
-				proto := caseSpec{Type: url, Variant: pl.variant, SigVar: sv.Name, Attacker: pl.attacker, Pos: pl.pos, Nest: pl.nest}
+				proto := caseSpec{Type: url, Variant: pl.variant, SigVar: sv.Name, Attacker: pl.attacker, Pos: pl.pos, Nest: pl.nest, Later: pl.later}
 				acts := c.actorsOf(proto)
 				n := 1
 				switch pl.product {
@@ -1011,6 +1024,9 @@ func (c *checker) enumerate() {
 					}
 					if pl.nest > 0 {
 						name += fmt.Sprintf(",msgexec*%d", pl.nest)
+					}
+					if pl.later {
+						name += ",t0+1d"
 					}
 					perPlan[name]++
 				}
